@@ -135,7 +135,10 @@ def decorate(rng, doc, draft):
                 v = {"Type": "string", "MINIMUM": Num("5"), "Properties": Obj([("a", False)]), "Required": ["zz"], "ENUM": [],
                      "Const": Num("424242"), "maxlength": Num("0"), "additionalproperties": False, "$REF": "#/nosuch", "Not": Obj(),
                      "Items": False}[k]
-                o.set(k, v if rng.random() < 0.7 else gs.gen_value(rng, 1))
+                v = v if rng.random() < 0.7 else gs.gen_value(rng, 1)
+                if isinstance(v, Num) and "e" in v.text.lower() and "." not in v.text:
+                    v = Num("100")      # never a bare exponent into an integer keyword: known finding D23, outside the model
+                o.set(k, v)
                 folded = True
     return d, folded
 
